@@ -7,7 +7,7 @@ import os
 import subprocess
 import sys
 
-REPO = "/repo"
+REPO = os.environ.get("VERIF_REPO", "/repo")
 
 
 def sh(cmd, **kw):
@@ -40,7 +40,7 @@ def main():
             print("mutated tree does not build:", b.stderr[-800:])
             return
         for pid in pids:
-            r = sh("cd /verif && python3 bin/check.py %s --tier quick" % pid)
+            r = sh("cd /verif && python3 bin/check.py %s --tier %s" % (pid, os.environ.get("VERIF_MUT_TIER", "quick")))
             viol = [l for l in r.stdout.splitlines() if l.startswith("VIOLATION") or l.startswith("  what:")]
             if r.returncode == 1 and viol:
                 print("%s DETECTED rc=1" % pid)
